@@ -59,15 +59,16 @@ ASSUMPTIONS = [
     "(C10's subject) do not occur inside the schedules",
 ]
 EXPLANATION = (
-    "Theorems over all reachable states of the interleaving machine (any number of client and background threads, "
-    "line granularity, peer answering in any order, time passing anywhere): seq_unique + seq_fresh_on_call; "
-    "dispatch_once + one_receiver + receive_exclusive (mutex of the receive region, FIFO channel); own_reply + "
-    "caller_gets_own_reply + frames_are_answers; no_lost_wakeup; no_deadlock_with_data; no_parking_after_eof + "
-    "waiter_woken_after_close (the end of the stream: the peer may close at any point; the receiver that meets the EOF "
-    "closes, raises, and still releases and notifies, so nobody stays parked); publication_order + reader_sees_value. "
-    "All six planned theorems are proved (C13.6 publication_order included), plus the end-of-stream pair. The EOF "
-    "schedules are trace-accepted by the model like all others (not oracle-only). Liveness beyond 'some thread is "
-    "enabled' (fair termination) is not claimed.")
+    "SAFETY theorems over all reachable states of the interleaving machine (any number of callers, background threads and "
+    "polling threads, line granularity, peer answering in any order / repeating answers / closing the stream, time passing "
+    "anywhere): seq_unique + seq_fresh_on_call; dispatch_once + one_receiver + receive_exclusive; own_reply (AT MOST once) + "
+    "caller_gets_own_reply + frames_are_answers; no_lost_wakeup; waiter_woken_with_data (for a thread asleep on the "
+    "condition while data is unread / the stream ended, an enabled lock holder, pending notifier or condition-lock holder "
+    "exists) -- no_deadlock_with_data and no_parking_after_eof are the weak 'some non-sleeping thread is enabled' forms, "
+    "which a spinning poller satisfies trivially; publication_order + reader_sees_value. No fairness / termination theorem: "
+    "'exactly once' is at most once + accounted for. The correspondence is exhaustive only within the preemption bounds and "
+    "only where the evidence key exhaustive_within_preemption_bound says complete=true; the rest is time-capped DFS and "
+    "seeded random schedules.")
 
 CONFIGS = {
     # name: case.  Thread ids: clients 1..n, background thread n+1.  Timeouts in virtual time units.
@@ -248,7 +249,7 @@ def correspondence(ctx):
     if env[2]:
         c.error = "statements the model has a step for were not found by shape: %s" % ", ".join(env[2])
         return c
-    t_end = time.time() + ctx.budget(55, 720)
+    t_end = time.time() + ctx.budget(48, 720)
     rng = Rng(ctx.seed).fork("c13")
     exhaustive = {}
     try:
